@@ -167,6 +167,16 @@ def run(ctx):
         pr = Prov(b)
         dl = w.dest["l"]
         dom = b.dominators()
+        # the write result may be bound to a named local before it is matched: every plain move/copy of it is the same value
+        res_locals = {dl}
+        grew = True
+        while grew:
+            grew = False
+            for i in b.live_blocks():
+                for s_ in b.stmts(i):
+                    if s_["k"] == "assign" and not s_["lhs"].get("p") and s_["rv"]["k"] == "use" and op_local(s_["rv"]["op"]) in res_locals and s_["lhs"]["l"] not in res_locals:
+                        res_locals.add(s_["lhs"]["l"])
+                        grew = True
         # advance calls: workspace callee taking the slice cursor and a count
         adv = []
         for c in b.calls():
@@ -182,10 +192,11 @@ def run(ctx):
             if t["k"] != "switch":
                 continue
             for s in b.stmts(i):
-                if s["k"] == "assign" and s["rv"]["k"] == "discr" and s["rv"]["place"]["l"] == dl and not s["rv"]["place"].get("p"):
+                if s["k"] == "assign" and s["rv"]["k"] == "discr" and s["rv"]["place"]["l"] in res_locals and not s["rv"]["place"].get("p"):
                     vm = {n_: d for d, n_ in s["rv"]["variants"]}
                     tg = {v: tb for v, tb in t["targets"]}
-                    if ok_arm is None and tg.get(vm.get("Ok")) is not None and tg.get(vm.get("Err")) is not None and w.bb in b.pred(i) + [i]:
+                    if ok_arm is None and tg.get(vm.get("Ok")) is not None and tg.get(vm.get("Err")) is not None and \
+                            (i == w.bb or dominates(b, w.bb, i, dom)) and w.bb in b.reachable_after(i) | {i}:
                         ok_arm, err_arm = tg.get(vm.get("Ok")), tg.get(vm.get("Err"))
         if ok_arm is None or err_arm is None:
             ctx.bad("R16.2", key + "#result-matched", loc(b, w.bb), "the result of write_vectored is not matched into Ok/Err arms")
@@ -196,12 +207,23 @@ def run(ctx):
             t = b.term(i)
             if t["k"] == "switch":
                 p = op_place(t["discr"])
-                if p is not None and p["l"] == dl and [e[0] for e in p.get("p", [])] == ["dc", "f"]:
+                if p is not None and p["l"] in res_locals and [e[0] for e in p.get("p", [])] == ["dc", "f"]:
                     for v, tb in t["targets"]:
                         if v == 0:
                             zero_t = tb
                     nz_t = t["otherwise"]
                     break
+                # `if n == 0` / `if n != 0` on the bound payload
+                dd_ = [d for d in b.defs().get(op_local(t["discr"]), []) if not b.is_cleanup(d[1])] if op_local(t["discr"]) is not None else []
+                if len(dd_) == 1 and dd_[0][0] == "assign" and dd_[0][3]["rv"]["k"] == "binop" and dd_[0][3]["rv"]["op"] in ("Eq", "Ne"):
+                    rv_ = dd_[0][3]["rv"]
+                    sides = [(rv_["a"], rv_["b"]), (rv_["b"], rv_["a"])]
+                    for x_, k_ in sides:
+                        if (op_const(k_) or {}).get("int") == 0 and any(o[0] in ("call", "callf") and o[1] == w.bb for o in pr.operand(x_)):
+                            tgm = {v: tb for v, tb in t["targets"]}
+                            zero_t, nz_t = (t["otherwise"], tgm.get(0)) if rv_["op"] == "Eq" else (tgm.get(0), t["otherwise"])
+                    if zero_t is not None:
+                        break
         if zero_t is None:
             ctx.bad("R16.2", key + "#ok0-is-error", loc(b, w.bb),
                     "a zero-length write (Ok(0)) is not distinguished from progress: a writer that accepts nothing makes the loop spin forever")
@@ -270,7 +292,15 @@ def run(ctx):
         io_arg = pr.operand(w.args[1]) if len(w.args) > 1 else set()
         builders = [c for c in b.calls() if c.name in ("extend", "collect", "from_iter", "push", "extend_from_slice") and c.bb in b.reachable_after(w.bb) | {w.bb} and w.bb in b.reachable_after(c.bb)]
         clears = [c for c in b.calls() if c.name in ("clear", "new", "truncate", "collect", "from_iter") and w.bb in b.reachable_after(c.bb) and c.bb in b.reachable_after(w.bb)]
-        ctx.check(bool(builders) and cycle_must_pass(b, w.bb, [c.bb for c in builders]), "R16.2", key + "#io-slices-rebuilt-each-iteration", loc(b, w.bb),
+        # a builder inside an inner `for` over the slices is represented by that inner loop's head (passed once per retry iteration)
+        bpass = []
+        for c in builders:
+            if c.bb in b.reachable_after(c.bb, avoid=[w.bb]):
+                heads = [h.bb for h in b.calls() if h.is_trait_method("Iterator", "next") and c.bb in b.reachable_after(h.bb, avoid=[w.bb]) and h.bb in b.reachable_after(c.bb, avoid=[w.bb])]
+                bpass += heads or [c.bb]
+            else:
+                bpass.append(c.bb)
+        ctx.check(bool(builders) and cycle_must_pass(b, w.bb, bpass), "R16.2", key + "#io-slices-rebuilt-each-iteration", loc(b, w.bb),
                   "a retry can reach write_vectored without rebuilding the io-slice list from the advanced slices (already written bytes would be sent again)")
         ctx.check(bool(clears) and cycle_must_pass(b, w.bb, [c.bb for c in clears]), "R16.2", key + "#io-slices-cleared-each-iteration", loc(b, w.bb),
                   "the io-slice list is not emptied between iterations (stale slices would be written again)")
